@@ -98,7 +98,9 @@ def suite(ctx):
         t1 = T0 + datetime.timedelta(seconds=secs, microseconds=rng.choice([0, 250000, 999999]))
         delta = rng.choice(deltas)
         t2 = t1 + datetime.timedelta(seconds=delta)
-        q = 'start=2024-01-01T00:00:00Z&timeline=1&patch=1&depth=%d' % depth
+        start = rng.choice(['2024-01-01T00:00:00Z', '2024-01-01T00:00:00Z', '2024-01-01T00:00:00.500Z',
+                            '2023-12-31T19:00:00.250000-05:00', '2024-01-01T01:30:00%2B01:30'])
+        q = 'start=%s&timeline=1&patch=1&depth=%d' % (start, depth)
         if mup is not None:
             q += '&mup=%d' % mup
         url = '/dash/live/bbb/hand_made.mpd?' + q
